@@ -32,6 +32,7 @@ type vrParams struct {
 	Dup     int                   `json:"dup"`   // index of the result that is delivered twice (-1 none)
 	Labels  []int                 `json:"labels"` // test target each result belongs to (several runs of one target share a label)
 	Orders  int                   `json:"orders"`
+	Alias   bool                  `json:"alias,omitempty"` // per-test map IS the run's Files map, as please's coverage parsers build it
 	Choices []int                 `json:"choices"`
 }
 
@@ -78,6 +79,8 @@ func genVR(seed uint64) vrParams {
 		p.Labels = append(p.Labels, r.Intn(m))
 	}
 	p.Orders = 6
+	// drawn last, so that the cases of earlier versions keep their parameters
+	p.Alias = r.Intn(2) == 0
 	return p
 }
 
@@ -128,7 +131,7 @@ func scenarioVR(t *testing.T, seed uint64, replay *vrParams) vrResult {
 		runs = 1
 	}
 	for o := 0; o < runs && res.Violation == nil; o++ {
-		var got string
+		var got, perTest string
 		var order []string
 		var choices []int
 		func() {
@@ -164,6 +167,10 @@ func scenarioVR(t *testing.T, seed uint64, replay *vrParams) vrResult {
 							cov.Files[f] = lc
 							cov.Tests[target.Label][f] = lc
 						}
+						if p.Alias {
+							// src/test/{go,xml,istanbul}_coverage.go: coverage.Tests[target.Label] = coverage.Files
+							cov.Tests[target.Label] = cov.Files
+						}
 						verifsim.Yield("finish")
 						order = append(order, fmt.Sprintf("%d%s", i, tag))
 						state.LogTestResult(target, 1, TargetTested, &TestSuite{}, cov, nil, "Tests passed")
@@ -187,6 +194,42 @@ func scenarioVR(t *testing.T, seed uint64, replay *vrParams) vrResult {
 					gm[f] = ls
 				}
 				got = vrRender(gm)
+				// Per-test coverage: what is reported for a test target is what one of that target's own
+				// runs reported, whatever finished before or after it (a run's report is never rewritten
+				// by the aggregation of other runs).
+				for label, files := range state.Coverage.Tests {
+					pm := map[string][]uint8{}
+					for f, lines := range files {
+						ls := make([]uint8, len(lines))
+						for j, l := range lines {
+							ls[j] = uint8(l)
+						}
+						pm[f] = ls
+					}
+					have := vrRender(pm)
+					ok := false
+					var cands []string
+					for i, tst := range p.Tests {
+						lab := i
+						if i < len(p.Labels) {
+							lab = p.Labels[i]
+						}
+						if fmt.Sprintf("//pkg:test%d", lab) != label.String() {
+							continue
+						}
+						in := map[string][]uint8{}
+						for f, lines := range tst {
+							in[f] = append([]uint8{}, lines...)
+						}
+						cands = append(cands, vrRender(in))
+						if vrRender(in) == have {
+							ok = true
+						}
+					}
+					if !ok && perTest == "" {
+						perTest = fmt.Sprintf("per-test coverage of %s is %s, which none of its runs reported (%v)", label, have, cands)
+					}
+				}
 			})
 		}()
 		res.Evals++
@@ -196,6 +239,11 @@ func scenarioVR(t *testing.T, seed uint64, replay *vrParams) vrResult {
 			q.Choices = choices
 			res.Params = q
 			res.Violation = &vrViolation{"coverage-depends-on-order", fmt.Sprintf("completion order %v gave aggregate %s, the point-wise best is %s", order, got, want)}
+		} else if perTest != "" {
+			q := p
+			q.Choices = choices
+			res.Params = q
+			res.Violation = &vrViolation{"per-test-coverage-rewritten", fmt.Sprintf("completion order %v: %s", order, perTest)}
 		}
 	}
 	for o := range orders {
